@@ -361,9 +361,26 @@ func (w *World) fnID(f *ssa.Function) Term {
 	return intLit(int64(id))
 }
 
+// addrTerm gives an address-only value (the address of a field of a heap
+// object) a term: an uninterpreted, positive "field address" of the object.
+func (w *World) addrTerm(x *Val) (Term, bool) {
+	l := x.Loc
+	if l == nil || l.kind != "field" || len(l.path) != 0 {
+		return Term{}, false
+	}
+	st := l.styp.Underlying().(*types.Struct)
+	name := sym("faddr!" + w.structName(l.styp) + "!" + st.Field(l.field).Name())
+	w.preAdd("faddr:"+name, fmt.Sprintf("(declare-fun %s (Int) Int)\n(assert (forall ((o Int)) (! (> (%s o) 0) :pattern ((%s o)))))", name, name, name))
+	w.assumption("the address of a struct field is an abstract non-nil value determined by the object (field addresses are not dereferenced through it)")
+	return mk(SInt, name, l.base), true
+}
+
 func (w *World) term(fr *Frame, st *State, v ssa.Value) Term {
 	x := w.val(fr, st, v)
 	if x.T.S == "" {
+		if t, ok := w.addrTerm(x); ok {
+			return t
+		}
 		if x.Loc != nil {
 			unsupported("address of %s escapes into a value context (%s)", v.Name(), fr.fn.Name())
 		}
@@ -435,6 +452,34 @@ func (w *World) execInstr(fr *Frame, st *State, ins ssa.Instruction) {
 	case *ssa.MapUpdate:
 		m := w.term(fr, st, ins.Map)
 		mt := ins.Map.Type().Underlying().(*types.Map)
+		if fr.top && fr.contract != nil && len(fr.contract.Asserts) > 0 {
+			ord := 0
+			for _, b := range fr.fn.Blocks {
+				for _, x := range b.Instrs {
+					if mu, ok := x.(*ssa.MapUpdate); ok {
+						ord++
+						if mu == ins {
+							goto found
+						}
+					}
+				}
+			}
+		found:
+			for _, as := range fr.contract.Asserts {
+				if as.Kind == "mapupdate" && as.Ord == ord {
+					env := w.contractEnv(fr, st, fr.entry)
+					env.vars["key"] = w.val(fr, st, ins.Key)
+					env.vars["value"] = w.val(fr, st, ins.Value)
+					env.vars["map"] = w.val(fr, st, ins.Map)
+					props := as.Clause.Props
+					if len(props) == 0 {
+						props = fr.contract.Props
+					}
+					o := w.oblige("assert", fmt.Sprintf("at.mapupdate%d.%s", ord, as.Clause.Label), st.cond, w.evalBool(env, as.Clause.Expr), as.Clause.Star, props)
+					o.Pos = as.Clause.Line
+				}
+			}
+		}
 		w.mapStore(st, mt, m, w.term(fr, st, ins.Key), w.term(fr, st, ins.Value))
 	case *ssa.MakeMap:
 		mt := ins.Type().Underlying().(*types.Map)
@@ -507,7 +552,13 @@ func (w *World) execInstr(fr *Frame, st *State, ins ssa.Instruction) {
 		}
 		var args []*Val
 		for _, a := range ins.Call.Args {
-			args = append(args, w.val(fr, st, a))
+			av := w.val(fr, st, a)
+			if av.T.S == "" {
+				if t, ok := w.addrTerm(av); ok {
+					av = &Val{T: t, Typ: av.Typ, Loc: av.Loc}
+				}
+			}
+			args = append(args, av)
 		}
 		if ins.Call.IsInvoke() || ins.Call.StaticCallee() == nil {
 			if ins.Call.Value != nil {
